@@ -49,6 +49,10 @@ GROUPS = {
     "Ports": dict(imports=["TLX.PyRt"], decls=[]),
     "TlsSess": dict(imports=["TLX.PyRt", "TLX.Session"], decls=[]),
     "Reasm": dict(imports=["TLX.PyRt", "TLX.Reassembly"], decls=[]),
+    "Checksum": dict(imports=["TLX.PyRt"], decls=[]),
+    "Suites": dict(imports=["TLX.PyRt", "TLX.CipherSuiteTypes"], decls=[]),
+    # the frame class constructors call the two varint functions: this group rests on Varint's definitions
+    "Frames": dict(imports=["TLX.PyRt", "TLX.Quic.FrameTypes", "TLX.Gen.Translated.Varint"], decls=[]),
 }
 
 SPECS = [
@@ -229,7 +233,156 @@ def _uniq(xs):
     return list(dict.fromkeys(xs))
 
 
+VARINT_CALLS = {
+    "get_variable_length_int_length": dict(lean="get_variable_length_int_length", args=["Bytes"], ret="Nat", raises=True),
+    "decode_variable_length_int": dict(lean="decode_variable_length_int", args=["Bytes"], ret="Nat", raises=True),
+}
+N, B, BO = "Nat", "Bytes", "Bool"
+# quic_frame.py: the attributes each frame class constructor writes (`self.payload` is `payload_`: the parameter has the name)
+FRAME_CLASSES = [
+    ("PaddingFrame", [("length", N)]),
+    ("GenericFrame", [("length", N), ("frame_length", N), ("data", B)]),
+    ("AckFrame", [("frame_type", N), ("length", N), ("largest_acknowledged", N), ("ack_delay", N), ("range_count", N),
+                  ("first_ack_range", N), ("ack_ranges", "List (Nat × Nat)"), ("ect_0_count", "Option Nat"),
+                  ("ect_1_count", "Option Nat"), ("ect_ce_count", "Option Nat")]),
+    ("ResetStreamFrame", [("length", N), ("stream_id", N), ("application_protocol_error_code", N), ("final_size", N)]),
+    ("StopSendingFrame", [("length", N), ("stream_id", N), ("application_protocol_error_code", N)]),
+    ("CryptoFrame", [("length", N), ("offset", N), ("crypto_length", N), ("crypto", B)]),
+    ("NewTokenFrame", [("length", N), ("token_length", N), ("token", B)]),
+    ("StreamFrame", [("frame_type", N), ("fin", BO), ("len", BO), ("off", BO), ("length", N), ("stream_id", N),
+                     ("server_initiated", BO), ("stream_unidirectional", BO), ("stream_data", "Option Bytes"), ("offset", N),
+                     ("data_length", "Int")]),
+    ("MaxDataFrame", [("length", N), ("maximum_data", N)]),
+    ("MaxStreamDataFrame", [("length", N), ("stream_id", N), ("maximum_stream_data", N)]),
+    ("MaxStreamsFrame", [("frame_type", N), ("length", N), ("maximum_streams", N)]),
+    ("DataBlockedFrame", [("length", N), ("maximum_data", N)]),
+    ("StreamDataBlockedFrame", [("length", N), ("stream_id", N), ("maximum_stream_data", N)]),
+    ("StreamsBlockedFrame", [("frame_type", N), ("length", N), ("maximum_streams", N)]),
+    ("NewConnectionIdFrame", [("length", N), ("sequence_number", N), ("retire_prior_to", N), ("connection_id_length", N),
+                              ("connection_id", B), ("stateless_reset_token", B)]),
+    ("RetireConnectionIdFrame", [("length", N), ("sequence_number", N)]),
+    ("PathChallengeFrame", [("data", B)]),
+    ("PathResponseFrame", [("data", B)]),
+    ("ConnectionCloseFrame", [("frame_type", N), ("length", N), ("error_code", N), ("close_frame_type", "Option Nat"),
+                              ("reason_phrase_length", N), ("reason_phrase", B)]),
+    ("DatagramFrame", [("frame_type", N), ("len_bit", BO), ("payload_", B), ("length", N)]),
+]
+for _cls, _attrs in FRAME_CLASSES:
+    SPECS.append(dict(name=_cls + "_init", group="Frames", file="tlexport/quic/quic_frame.py", func=_cls + ".__init__",
+                      params=[("payload", "Bytes")], ret="None", drop_calls=["super().__init__(src_packet)"], calls=VARINT_CALLS,
+                      raise_state=False,
+                      places=[("self." + a.rstrip("_"), a, t, "rw") for a, t in _attrs]))
+
+CLS = "TLX.Quic.Cls"
+NO_ATTR_CLASSES = ["PingFrame", "HandshakeDoneFrame"]            # constructors that write nothing
+CLASS_LENGTH = ["PingFrame", "HandshakeDoneFrame", "PathChallengeFrame", "PathResponseFrame"]   # `length` is a class attribute
+for _cls in NO_ATTR_CLASSES:
+    SPECS.append(dict(name=_cls + "_init", group="Frames", file="tlexport/quic/quic_frame.py", func=_cls + ".__init__",
+                      params=[("_payload", "Bytes")], ret="None", drop_calls=["super().__init__(src_packet)"],
+                      theorem="parse_frames_eq_model"))
+for _cls in CLASS_LENGTH:
+    SPECS.append(dict(name=_cls + "_length", group="Frames", kind="classattr", file="tlexport/quic/quic_frame.py", func=None,
+                      cls=_cls, attr="length", type="Nat", theorem="parse_frames_eq_model"))
+
+
+def frame_glue():
+    """the frame objects as one type, `frame.length` (instance attribute if the constructor writes it, else the class
+    attribute) and the constructor per class name — glue over the translated definitions, nothing read from the source"""
+    written = {c: [a for a, _ in attrs] for c, attrs in FRAME_CLASSES}
+    lines = ["/-- an object of one of the frame classes: the attributes its constructor wrote -/", "inductive FrameObj"]
+    for c, _ in FRAME_CLASSES:
+        lines.append(f"  | {c} (s : {c}_init.St)")
+    for c in NO_ATTR_CLASSES:
+        lines.append(f"  | {c}")
+    lines += ["  deriving DecidableEq, Repr", "", "/-- `frame.length` -/", "def FrameObj.length : FrameObj → Nat"]
+    for c, _ in FRAME_CLASSES:
+        lines.append(f"  | .{c} s => " + ("s.length" if "length" in written[c] else f"{c}_length"))
+    for c in NO_ATTR_CLASSES:
+        lines.append(f"  | .{c} => {c}_length")
+    lines += ["", "/-- `<class>(payload, src_packet)` (attributes that exist only on some paths start absent) -/",
+              f"def construct (c : {CLS}) (payload : Bytes) : Except PyRt.Err FrameObj :=", "  match c with"]
+    for c, attrs in FRAME_CLASSES:
+        opt = "".join(" none" for a, t in attrs if t.startswith("Option ") and c in ("AckFrame", "ConnectionCloseFrame"))
+        raises = c not in ("PathChallengeFrame", "PathResponseFrame")
+        lines.append(f"  | .{c} => " + (f"({c}_init payload{opt}).map .{c}" if raises else f".ok (.{c} ({c}_init payload))"))
+    for c in NO_ATTR_CLASSES:
+        lines.append(f"  | .{c} => .ok .{c}")
+    return "\n".join(lines) + "\n"
+
+
+SPECS.append(dict(name="FrameObj", group="Frames", kind="raw", file="tlexport/quic/quic_frame.py", func=None, gen=frame_glue,
+                  theorem="parse_frames_eq_model"))
+SPECS.append(dict(name="frame_type", group="Frames", kind="table", file="tlexport/quic/quic_frame.py", func=None, target="frame_type",
+                  type=f"List (List Nat × {CLS})", theorem="frame_type_eq_model",
+                  consts={c: (f"{CLS}.{c}", CLS) for c in [x for x, _ in FRAME_CLASSES] + NO_ATTR_CLASSES}))
+SPECS.append(dict(name="parse_frames", group="Frames", file="tlexport/quic/quic_frame.py", func="parse_frames",
+                  params=[("payload", "Bytes")], ret="List FrameObj",
+                  consts={"frame_type": ("frame_type", f"Table List Nat; {CLS}")},
+                  locals={"key": "Int|List Nat", "frames": "List FrameObj"},
+                  fuel={"while ": "len(payload)"},
+                  class_call=dict(type=f"Option {CLS}", lean="construct", args=["Bytes", None], ret="FrameObj"),
+                  calls={"GenericFrame": dict(lean=f"construct {CLS}.GenericFrame", args=["Bytes", None], ret="FrameObj", raises=True)},
+                  attr_funcs={("FrameObj", "length"): ("FrameObj.length", "Nat")}))
+
+# cipher_suite_parser.py: the two tables re-derived from the dict displays (classes named by the last identifier of the
+# expression that denotes them) and `split_cipher_suite`
+VAL = "TLX.CipherSuite.Val"
+
+
+def _val_leaf(node, plain, fname):
+    """a value of `cipher_suite_parts[part]`: `(class, int)`, a class, or an int — as the model's `Val`"""
+    if isinstance(node, ast.Tuple) and len(node.elts) == 2:
+        return f".tup {plain(node.elts[0])} {plain(node.elts[1])}"
+    if isinstance(node, ast.Constant) and isinstance(node.value, int) and not isinstance(node.value, bool):
+        return f".int {plain(node)}"
+    if isinstance(node, (ast.Name, ast.Attribute)):
+        return f".cls {plain(node)}"
+    raise Untranslatable(fname, node, "table value that is not a (class, int) tuple, a class or an int")
+
+
+def _cls(name):
+    return ("([" + ", ".join(str(ord(c)) for c in name) + "] : List Nat)", "Cls")
+
+
+SUITE_TYPES = {"Val": VAL, "Cls": "List Nat"}
+SPECS.append(dict(name="cipher_suites", group="Suites", kind="table", file="tlexport/cipher_suite_parser.py", func=None,
+                  target="cipher_suites", type="List (Bytes × List Nat)", theorem="cipher_tables_eq_model"))
+SPECS.append(dict(name="cipher_suite_parts", group="Suites", kind="table", file="tlexport/cipher_suite_parser.py", func=None,
+                  target="cipher_suite_parts", type=f"List (List Nat × List (List Nat × {VAL}))", class_names=True, leaf=_val_leaf,
+                  theorem="cipher_tables_eq_model"))
+SPECS.append(dict(name="split_cipher_suite", group="Suites", file="tlexport/cipher_suite_parser.py", func="split_cipher_suite",
+                  params=[("suite_id", "Bytes")], ret="Option (Table Str; Val)", types=SUITE_TYPES,
+                  consts={"cipher_suites": ("cipher_suites", "Table Bytes; Str"),
+                          "cipher_suite_parts": ("cipher_suite_parts", "Table Str; Table Str; Val"),
+                          "AES": _cls("AES"), "aead.AESGCM": _cls("AESGCM"), "aead.AESCCM": _cls("AESCCM"),
+                          "hashes.SHA256": _cls("SHA256"), "None": _cls("None")},
+                  locals={"cipher_suite": "Table Str; Val"},
+                  unions={"Val": [("Cls × Nat", f"{VAL}.tup {{0}}.1 {{0}}.2"), ("Cls", f"{VAL}.cls {{0}}"), ("Nat", f"{VAL}.int {{0}}")]}))
+
+# checksums.py: the bytearrays are locals the functions create (`copy.deepcopy`, `bytearray(…)`): values that are rebound;
+# what the functions read from the packet object are places (`len(packet.udp)`, `bytes(packet.udp)` are inputs)
+SPECS.append(dict(name="ones_complement_checksum", group="Checksum", file="tlexport/checksums.py", func="ones_complement_checksum",
+                  params=[("byte_arr", "Bytes")], ret="Bytes", fuel={"while ": "checksum"}))
+SPECS.append(dict(name="calculate_checksum_udp", group="Checksum", file="tlexport/checksums.py", func="calculate_checksum_udp",
+                  params=[], ret="Bool",
+                  calls={"ones_complement_checksum": dict(lean="ones_complement_checksum", args=["Bytes"], ret="Bytes", raises=True)},
+                  places=[("packet.ipv6_packet", "ipv6_packet", "Bool", "r"), ("packet.ip_src", "ip_src", "Bytes", "r"),
+                          ("packet.ip_dst", "ip_dst", "Bytes", "r"), ("packet.ip.p", "ip_p", "Nat", "r"),
+                          ("len(packet.udp)", "l4_len", "Nat", "r"), ("bytes(packet.udp)", "l4_bytes", "Bytes", "r"),
+                          ("packet.udp.sum", "l4_sum", "Nat", "r")]))
+SPECS.append(dict(name="calculate_checksum_tcp", group="Checksum", file="tlexport/checksums.py", func="calculate_checksum_tcp",
+                  params=[], ret="Bool",
+                  calls={"ones_complement_checksum": dict(lean="ones_complement_checksum", args=["Bytes"], ret="Bytes", raises=True)},
+                  places=[("packet.ipv6_packet", "ipv6_packet", "Bool", "r"), ("packet.ip_src", "ip_src", "Bytes", "r"),
+                          ("packet.ip_dst", "ip_dst", "Bytes", "r"), ("packet.ip.p", "ip_p", "Nat", "r"),
+                          ("len(packet.tcp)", "l4_len", "Nat", "r"), ("bytes(packet.tcp)", "l4_bytes", "Bytes", "r"),
+                          ("packet.tcp.sum", "l4_sum", "Nat", "r")]))
+
 THEOREMS = _uniq(theorem_of(s) for s in SPECS)
+
+
+# a group whose definitions call another group's: it cannot be proved when that one is broken
+GROUP_DEPS = {"Frames": ["Varint"]}
 
 
 def group_modules(groups):
@@ -245,16 +398,18 @@ MODULES = group_modules(GROUPS)          # all groups (`TLX.Props.Translated` im
 
 # property → the groups whose translated functions its model functions are (what the check proves besides its own modules)
 CHECK_GROUPS = {
-    "C01": ["TlsSess"],
-    "C02": ["QuicDissect", "QuicSess", "Pn", "Varint"],
+    "C01": ["TlsSess", "Suites"],
+    "C02": ["QuicDissect", "QuicSess", "Pn", "Varint", "Frames"],
     "C03": ["TlsSess", "QuicDissect"],
     "C04": ["Demux", "QuicSess", "QuicDissect"],
     "C05": ["Reasm"],
     "C07": ["Ports"],
     "C10": ["Ports"],
+    "C11": ["Checksum"],
     "C13": ["TlsSess"],
+    "C14": ["Suites"],
     "C16": ["Pn"],
-    "C17": ["Varint"],
+    "C17": ["Varint", "Frames"],
     "C18": ["Demux"],
 }
 BY_CHECK = {c: (group_modules(g), group_theorems(g)) for c, g in CHECK_GROUPS.items()}
@@ -275,14 +430,27 @@ def table_term(node, spec, fname):
     """a dict / tuple / list display of spec constants and int literals as a Lean term (dict → association list in
     display order; `PyRt.tableGet` looks up the LAST entry of a key, as a dict display keeps the last value)"""
     k = ast.unparse(node)
-    if k in spec["consts"]:
+    if k in spec.get("consts", {}):
         return spec["consts"][k][0]
+    leaf = spec.get("leaf")                # how the values of a dict of mixed values are written (a union type of the spec)
+    if leaf is not None and not isinstance(node, ast.Dict) and spec.get("_in_value"):
+        return leaf(node, lambda n: table_term(n, dict(spec, leaf=None), fname), fname)
     if isinstance(node, ast.Constant) and isinstance(node.value, int) and not isinstance(node.value, bool):
         return str(node.value) if node.value >= 0 else f"({node.value})"
+    if isinstance(node, ast.Constant) and isinstance(node.value, bytes):
+        return "[" + ", ".join(str(b) for b in node.value) + "]"
+    if isinstance(node, ast.Constant) and isinstance(node.value, str):
+        return "[" + ", ".join(str(ord(c)) for c in node.value) + "]"
+    if spec.get("class_names") and (isinstance(node, (ast.Name, ast.Attribute)) or (isinstance(node, ast.Constant) and node.value is None)):
+        # a class (or None) is named by the last identifier of the expression that denotes it
+        name = "None" if isinstance(node, ast.Constant) else (node.id if isinstance(node, ast.Name) else node.attr)
+        return "[" + ", ".join(str(ord(c)) for c in name) + "]"
     if isinstance(node, (ast.Tuple, ast.List)):
         return "[" + ", ".join(table_term(e, spec, fname) for e in node.elts) + "]"
     if isinstance(node, ast.Dict) and all(key is not None for key in node.keys):
-        return "[" + ", ".join(f"({table_term(a, spec, fname)}, {table_term(b, spec, fname)})" for a, b in zip(node.keys, node.values)) + "]"
+        inner = dict(spec, _in_value=True)
+        keyspec = dict(spec, _in_value=False)
+        return "[" + ",\n  ".join(f"({table_term(a, keyspec, fname)}, {table_term(b, inner, fname)})" for a, b in zip(node.keys, node.values)) + "]"
     raise Untranslatable(fname, node, "table entry that is not a spec constant, an int literal, a tuple/list or a dict display")
 
 
@@ -307,6 +475,20 @@ def translate_table(tree, text, spec):
             f"def {spec['name']} : {spec['type']} :=\n  {table_term(st.value, spec, fname)}\n")
 
 
+def translate_classattr(tree, text, spec):
+    """`attr = <int literal>` in the body of class `cls`"""
+    cls = next((n for n in tree.body if isinstance(n, ast.ClassDef) and n.name == spec["cls"]), None)
+    if cls is None:
+        raise Untranslatable(spec["cls"], tree, f"class not found in {spec['file']}")
+    hits = [n for n in cls.body if isinstance(n, ast.Assign) and len(n.targets) == 1 and ast.unparse(n.targets[0]) == spec["attr"]]
+    if (len(hits) != 1 or not isinstance(hits[0].value, ast.Constant) or isinstance(hits[0].value.value, bool)
+            or not isinstance(hits[0].value.value, int) or hits[0].value.value < 0):
+        raise Untranslatable(spec["cls"], cls, f"class attribute `{spec['attr']}` is not assigned one non-negative int literal in the class body")
+    st = hits[0]
+    return (f"/- class attribute `{spec['cls']}.{spec['attr']}`: {spec['file']} line {st.lineno} -/\n"
+            f"def {spec['name']} : {spec['type']} := {st.value.value}\n")
+
+
 def translate_all(root, specs=None):
     """→ ({file name under lean/TLX/Gen: Lean text}, problems); each problem names its group"""
     specs = SPECS if specs is None else specs
@@ -323,6 +505,12 @@ def translate_all(root, specs=None):
             text, tree = cache[path]
             if spec.get("kind") == "table":
                 out.append(translate_table(tree, text, spec))
+                continue
+            if spec.get("kind") == "classattr":
+                out.append(translate_classattr(tree, text, spec))
+                continue
+            if spec.get("kind") == "raw":
+                out.append(f"/- glue over the definitions above (harness/translate.py `{spec['gen'].__name__}`) -/\n" + spec["gen"]())
                 continue
             fn = py2lean.find_function(tree, spec["func"])
             if fn is None:
@@ -404,6 +592,27 @@ def _bool(x):
 def _exc(e):
     return {IndexError: "index", ZeroDivisionError: "zeroDiv", ValueError: "value", OverflowError: "overflow",
             KeyError: "key"}.get(type(e))
+
+
+def _frame(f):
+    """a frame object of the real code as a `Gen.Py.FrameObj` term"""
+    cls = type(f).__name__
+    if cls in NO_ATTR_CLASSES:
+        return f"Gen.Py.FrameObj.{cls}"
+    attrs = dict(FRAME_CLASSES)[cls]
+
+    def val(v, t):
+        if t.startswith("Option "):
+            return "none" if v is None else f"(some {val(v, t[7:])})"
+        if t == "Bool":
+            return _bool(v)
+        if t == "Bytes":
+            return _b(v)
+        if t.startswith("List "):
+            return "[" + ", ".join("(" + ", ".join(str(x) for x in e) + ")" for e in v) + "]"
+        return f"({v} : {t})"
+    fields = ", ".join(f"{a} := {val(getattr(f, a.rstrip('_'), None), t)}" for a, t in attrs)
+    return f"(Gen.Py.FrameObj.{cls} {{ {fields} }})"
 
 
 def _cases(rng, n):
@@ -512,6 +721,61 @@ def _cases(rng, n):
         out.append(("session_handle_packet", f"{seg} {pk2.seq} {_b(pk2.ip_src)} {pk2.sport} {_b(me.server_ip)} {me.server_port} {seen_s} {seen_c} []",
                     f"{{ seen_packets_server := {me.seen_packets_server}, seen_packets_client := {me.seen_packets_client}, "
                     f"packet_buffer := [{seg if me.packet_buffer else ''}] }}"))
+        # parse_frames: every class constructor through the dispatch; payloads that start with a known type byte, then noise
+        qf = importlib.import_module("tlexport.quic.quic_frame")
+        known = [b for key in qf.frame_type for b in key]
+        pay = b"".join(bytes([rng.choice(known + [0x40, 0x21])]) + bytes(rng.choice([0, 0, 1, 2, 3, 0x40, 0x80, 0xc0, rng.randrange(256)])
+                                                                           for _ in range(rng.randint(0, 6)))
+                       for _ in range(rng.randint(0, 3)))
+        k, v = call(qf.parse_frames, pay, None)
+        out.append(("parse_frames", _b(pay), (".ok [" + ", ".join(_frame(f) for f in v) + "]") if k == "ok" else f".error .{v}"))
+        # cipher_suite_parser.py: keys of the table and ids that are not
+        csp = importlib.import_module("tlexport.cipher_suite_parser")
+        sid = rng.choice(list(csp.cipher_suites)) if rng.random() < 0.85 else rb(0, 3)
+        k, v = call(csp.split_cipher_suite, sid)
+
+        def cname(c):
+            return "[" + ", ".join(str(ord(ch)) for ch in ("None" if c is None else c.__name__)) + "]"
+
+        def sval(x):
+            if isinstance(x, tuple):
+                return f"TLX.CipherSuite.Val.tup {cname(x[0])} {x[1]}"
+            if isinstance(x, int):
+                return f"TLX.CipherSuite.Val.int {x}"
+            return f"TLX.CipherSuite.Val.cls {cname(x)}"
+        out.append(("split_cipher_suite", _b(sid), ".ok none" if v is None else
+                    ".ok (some [" + ", ".join("([" + ", ".join(str(ord(ch)) for ch in kk) + "], " + sval(vv) + ")" for kk, vv in v.items()) + "])"))
+        # checksums.py
+        cks = importlib.import_module("tlexport.checksums")
+        arr = rb(0, 9) if rng.random() < 0.7 else bytes([0xff]) * rng.randint(0, 9)
+        k, v = call(cks.ones_complement_checksum, bytearray(arr))
+        out.append(("ones_complement_checksum", _b(arr), f".ok {_b(v)}" if k == "ok" else f".error .{v}"))
+
+        class L4Obj:
+            def __init__(self, raw, csum):
+                self.raw, self.sum = raw, csum
+
+            def __len__(self):
+                return self.length
+
+            def __bytes__(self):
+                return self.raw
+        for l4, off in (("udp", 6), ("tcp", 16)):
+            v6 = rng.random() < 0.4
+            alen = 16 if v6 else 4
+            seg = bytearray(rb(off + 2, off + 8))
+            src, dst, proto = rb(alen, alen), rb(alen, alen), rng.choice([6, 17, 17, 300])
+            right = int.from_bytes(cks.ones_complement_checksum(bytearray(
+                src + dst + (len(seg).to_bytes(4, "big") + b"\0\0\0" + bytes([proto % 256]) if v6 else b"\0" + bytes([proto % 256]) + len(seg).to_bytes(2, "big"))
+                + bytes(seg[:off]) + b"\0\0" + bytes(seg[off + 2:]))), "big")
+            csum = rng.choice([right, right, 0, 0xffff, rng.randrange(65536)])
+            seg[off:off + 2] = csum.to_bytes(2, "big")
+            obj = L4Obj(bytes(seg), csum)
+            obj.length = len(seg) if rng.random() < 0.9 else 70000
+            pk3 = NS(ipv6_packet=v6, ip_src=src, ip_dst=dst, ip=NS(p=proto), **{l4: obj})
+            k, v = call(getattr(cks, "calculate_checksum_" + l4), pk3)
+            out.append(("calculate_checksum_" + l4, f"{_bool(v6)} {_b(src)} {_b(dst)} {proto} {obj.length} {_b(bytes(seg))} {csum}",
+                        f".ok {_bool(v)}" if k == "ok" else f".error .{v}"))
         # handle_alert / handle_tls_client_hello
         ver = rng.choice([None] + list(vers))
         me = NS(tls_version=ver, can_decrypt=rng.random() < 0.5, client_hello_seen=rng.random() < 0.5)
@@ -555,8 +819,13 @@ OUTSIDE = [
     ("def f(x):\n    return g(x)\n", [("x", "Int")], "Int"),
     ("def f(x):\n    return x.y\n", [("x", "Int")], "Int"),
     ("def f(x):\n    return x[::2]\n", [("x", "Bytes")], "Bytes"),
-    ("def f(x):\n    for i in x:\n        pass\n    return 0\n", [("x", "Bytes")], "Int"),
-    ("def f(x):\n    for i in range(3):\n        if i == x:\n            return 1\n    return 0\n", [("x", "Int")], "Int"),
+    ("def f(x):\n    for i in x:\n        pass\n    return 0\n", [("x", "Int")], "Int"),
+    ("def f(x):\n    k = 255\n    for t in x:\n        k = t\n    return 0\n", [("x", "List Bytes")], "Int"),
+    ("def f(x):\n    for i in range(3):\n        if i == x:\n            continue\n    return 0\n", [("x", "Int")], "Int"),
+    ("def f(x):\n    while x > 0:\n        x -= 1\n    else:\n        x = 5\n    return x\n", [("x", "Int")], "Int"),
+    ("def f(x):\n    try:\n        return x[0]\n    except KeyError:\n        return 1\n    finally:\n        pass\n", [("x", "Bytes")], "Int"),
+    ("def f(d, k):\n    return d[k] in \"ab\"\n", [("d", "Table Str; Nat"), ("k", "Str")], "Bool"),
+    ("def f(x):\n    y = bytearray(x)\n    z = y\n    z.extend(x)\n    return y\n", [("x", "Bytes")], "Bytes"),
     ("def f(x):\n    return x == b'a'\n", [("x", "Int")], "Bool"),
     ("def f(x):\n    if x > 0:\n        return 1\n", [("x", "Int")], "Int"),
     ("def f(x):\n    try:\n        return 1\n    except Exception:\n        return 2\n", [("x", "Int")], "Int"),
